@@ -9,8 +9,8 @@ import random
 
 from . import core
 
-NAMES = ['x', 'xy', 'y']          # one name is a prefix of another
-PNAMES = ['callVariable', 'callVariableX', 'x']
+NAMES = ['x', 'xy', 'y', 'X', 'Xy']          # one name is a prefix of another; two differ in letter case only
+PNAMES = ['callVariable', 'callVariableX', 'x', 'callvariable', 'X']
 
 
 class TooLong(BaseException):
@@ -27,6 +27,9 @@ class Host(object):
         return self.fn(*args, **kw)
 
 
+LISTARG = [1, 2]
+
+
 def _undecorated(*args, **kw):
     return None
 
@@ -38,7 +41,7 @@ class Recorder(object):
     """Runs one behaviour on a real emitter and records every public call, every callback
     entry/exit.  Purely observational: nothing of the emitter's internals is read."""
 
-    def __init__(self, em, scripts, max_depth, cap=600, cbkind='closure'):
+    def __init__(self, em, scripts, max_depth, cap=1500, cbkind='closure'):
         self.cbkind = cbkind
         self.em = em
         self.scripts = scripts          # {cb id: [op, ...]}
@@ -51,7 +54,8 @@ class Recorder(object):
     def cb(self, c):
         if c not in self.cbs:
             def callback(*args, **kw):
-                self.log({'e': 'call', 'k': '', 'n': '', 'cb': c, 'x': list(args),
+                self.log({'e': 'call', 'k': '', 'n': '', 'cb': c,
+                          'x': [(700 if a is LISTARG else 701) if isinstance(a, list) else a for a in args],
                           'c': list(kw.values())[:1]})
                 self.depth += 1
                 try:
@@ -106,7 +110,7 @@ class Recorder(object):
         elif k == 'offcb':
             em.off(n, self.cb(o['cb']))
         elif k == 'emit':
-            em.emit(n, *o['x'])
+            em.emit(n, *[LISTARG if a == 700 else a for a in o['x']])      # (700: one and the same list object, every time)
             self.log({'e': 'emitret', 'k': '', 'n': '', 'cb': 0, 'x': [], 'c': []})
         else:
             raise core.MachineryError('bad op ' + repr(o))
@@ -140,14 +144,14 @@ def random_case(rng, target):
 
     def op(in_script):
         k = rng.choice(['on', 'on', 'once', 'once', 'off', 'offcb', 'emit', 'emit', 'emit'])
-        n = rng.choice(names[:2] if rng.random() < 0.8 else names)
+        n = rng.choice(names[:2] if rng.random() < 0.6 else names)
         if k in ('on', 'once'):
             return {'k': k, 'n': n, 'cb': rng.choice(cbs), 'x': rng.choice([[], [], [7], [9]])}
         if k == 'off':
             return {'k': k, 'n': n, 'cb': 0, 'x': []}
         if k == 'offcb':
             return {'k': k, 'n': n, 'cb': rng.choice(cbs), 'x': []}
-        return {'k': k, 'n': n, 'cb': 0, 'x': rng.choice([[], [1], [1, 2]])}
+        return {'k': k, 'n': n, 'cb': 0, 'x': rng.choice([[], [1], [1, 2], [700], [3, 700]])}
 
     script = {}
     for c in rng.sample(cbs, rng.randint(0, 3)):
@@ -275,6 +279,14 @@ def main(tier, replay=None):
     for i in range(0, len(cases), CH):
         validate(run, cases[i:i + CH], 's2c%d' % (i // CH))
     # 4. C2S: random longer behaviours, on Emitter and on Parser (which is an Emitter)
+    # a chain of emits nested 80 deep through one callback (a cell depending on a cell depending on a cell ...), on both kinds of emitter
+    deep = []
+    for target in ('Emitter', 'Parser'):
+        for name in ('x', 'callVariable' if target == 'Parser' else 'xy'):
+            deep.append({'hist': [{'k': 'on', 'n': name, 'cb': 1, 'x': []}, {'k': 'on', 'n': name, 'cb': 2, 'x': []},
+                                  {'k': 'emit', 'n': name, 'cb': 0, 'x': [1]}, {'k': 'emit', 'n': name, 'cb': 0, 'x': []}],
+                         'script': {'1': [{'k': 'emit', 'n': name, 'cb': 0, 'x': [2]}]}, 'max_depth': 80, 'target': target, 'cbkind': 'closure'})
+    validate(run, deep, 'deep')
     n = 1500 if quick else 24000
     RCH = 6000       # long random behaviours branch in the trace specification: smaller batches keep TLC's memory flat
     for target in ('Emitter', 'Parser'):
